@@ -73,40 +73,48 @@ func progOf(c *Case) *Case {
 	return &x
 }
 
-func oracleRunLine(c *Case, gas uint64) string {
+func oracleRunLine(c *Case, gas uint64, hashes [][2]string) string {
 	var sb strings.Builder
 	in := c.Input
 	if in == "" {
 		in = "-"
 	}
-	fmt.Fprintf(&sb, "RUN %x 0 %s %x %s %x %x 0 %x %s %x %s %s |", gas, originHex, envGasPrice, coinbaseHex, envTime, envNumber,
-		envGasLimit, chainIDHex, envBaseFee, strings.TrimLeft(c.To, "0"), in)
+	fmt.Fprintf(&sb, "RUN %x 0 %s %x %s %x %x 0 %x %s %x %s %s %s %s |", gas, originHex, envGasPrice, coinbaseHex, envTime, envNumber,
+		envGasLimit, chainIDHex, envBaseFee, strings.TrimLeft(c.To, "0"), valOf(c.Value).Text(16), in, masterTopicHex)
+	fmt.Fprintf(&sb, " A %s %x - 0", originHex, originBal)
 	for _, ct := range c.Contracts {
-		code := ct.Code
-		if code == "" {
-			continue // an account without code does not exist
-		}
-		fmt.Fprintf(&sb, " C %s %s", bigHex(ct.Addr).Text(16), code)
+		fmt.Fprintf(&sb, " A %s %s %s 0", bigHex(ct.Addr).Text(16), valOf(ct.Bal).Text(16), hexOrDash(hexBytes(ct.Code)))
 	}
 	sb.WriteString(" |")
 	for _, s := range c.Storage {
 		fmt.Fprintf(&sb, " S %s %s %s", bigHex(s.Addr).Text(16), bigHex(s.Key).Text(16), bigHex(s.Val).Text(16))
 	}
+	sb.WriteString(" |")
+	for _, a := range newAddrs {
+		sb.WriteString(" " + hx.HexN(a[:]))
+	}
+	sb.WriteString(" |")
+	for _, h := range hashes {
+		fmt.Fprintf(&sb, " H %s %s", h[0], h[1])
+	}
 	return sb.String()
 }
 
 type modelAns struct {
-	Class   string
-	Head    string
-	Logs    []string
-	Storage map[string]string
+	Class     string
+	Head      string
+	Logs      []string
+	Storage   map[string]string
+	Accts     map[string]string
+	Transfers []string
 }
 
 func parseAns(s string) modelAns {
 	var m modelAns
 	m.Storage = map[string]string{}
+	m.Accts = map[string]string{}
 	parts := strings.Split(s, "|")
-	if len(parts) != 3 {
+	if len(parts) != 5 {
 		m.Class = "ERR"
 		m.Head = s
 		return m
@@ -130,6 +138,14 @@ func parseAns(s string) modelAns {
 	sf := strings.Fields(parts[2])
 	for i := 0; i+3 < len(sf)+0 && sf[i] == "S"; i += 4 {
 		m.Storage[sf[i+1]+" "+sf[i+2]] = sf[i+3]
+	}
+	af := strings.Fields(parts[3])
+	for i := 0; i+4 < len(af)+0 && af[i] == "A"; i += 5 {
+		m.Accts[af[i+1]] = af[i+2] + " " + af[i+3] + " " + af[i+4]
+	}
+	tf := strings.Fields(parts[4])
+	for i := 0; i+3 < len(tf)+0 && tf[i] == "T"; i += 4 {
+		m.Transfers = append(m.Transfers, tf[i+1]+" "+tf[i+2]+" "+tf[i+3])
 	}
 	return m
 }
@@ -170,7 +186,8 @@ func diff(c *Case, o *Obs, m *modelAns) (field, detail string) {
 	for _, k := range ks {
 		iv, ok := o.Storage[k]
 		if !ok { // slot the implementation never wrote according to the tracer: read it now
-			iv = readSlot(c, o, k)
+			ak := strings.Fields(k)
+			iv = o.readSlot(ak[0], ak[1])
 		}
 		mv, ok := m.Storage[k]
 		if !ok {
@@ -178,6 +195,34 @@ func diff(c *Case, o *Obs, m *modelAns) (field, detail string) {
 		}
 		if iv != mv {
 			return "storage", "slot " + k + ": impl=" + iv + " model=" + mv
+		}
+	}
+	if strings.Join(o.Transfers, ";") != strings.Join(m.Transfers, ";") {
+		return "transfers", "impl=[" + strings.Join(o.Transfers, ";") + "] model=[" + strings.Join(m.Transfers, ";") + "]"
+	}
+	akeys := map[string]struct{}{}
+	for k := range o.Accts {
+		akeys[k] = struct{}{}
+	}
+	for k := range m.Accts {
+		akeys[k] = struct{}{}
+	}
+	var aks []string
+	for k := range akeys {
+		aks = append(aks, k)
+	}
+	sort.Strings(aks)
+	for _, k := range aks {
+		iv, ok := o.Accts[k]
+		if !ok {
+			iv = o.readAcct(k)
+		}
+		mv, ok := m.Accts[k]
+		if !ok {
+			mv = "0 - 0"
+		}
+		if iv != mv {
+			return "accounts", "account " + k + " (balance code master): impl=[" + iv + "] model=[" + mv + "]"
 		}
 	}
 	return "", ""
@@ -286,7 +331,7 @@ func runBatch(ctx *hx.Ctx, r *hx.Rand, cases []*Case, sweepMax int) {
 	}
 	var lines []string
 	for _, x := range runs {
-		lines = append(lines, oracleRunLine(x.c, x.gas))
+		lines = append(lines, oracleRunLine(x.c, x.gas, x.o.Hashes))
 	}
 	// ALU vectors additionally go to the model's ALU directly
 	type aluRef struct{ run, vec int }
@@ -343,10 +388,12 @@ func runBatch(ctx *hx.Ctx, r *hx.Rand, cases []*Case, sweepMax int) {
 			ctx.Cov.Count("impl-error=" + o.ErrText)
 		}
 		if isFull {
+			ctx.Cov.Add("value-transfers", len(o.Transfers))
 			ctx.Cov.Bucket("call-depth", o.MaxDepth)
 			ctx.Cov.Add("alu-instructions-checked-in-context", o.AluSeen)
 			for _, op := range []string{"SSTORE", "SLOAD", "MSTORE", "MLOAD", "MSTORE8", "JUMP", "JUMPI", "CALL", "STATICCALL", "DELEGATECALL", "CALLCODE",
-				"LOG0", "LOG1", "LOG2", "LOG3", "LOG4", "RETURNDATACOPY", "CALLDATACOPY", "CODECOPY", "REVERT", "RETURN"} {
+				"LOG0", "LOG1", "LOG2", "LOG3", "LOG4", "RETURNDATACOPY", "CALLDATACOPY", "CODECOPY", "REVERT", "RETURN",
+				"CREATE", "CREATE2", "SELFDESTRUCT", "SHA3", "BALANCE", "SELFBALANCE", "EXTCODESIZE", "EXTCODECOPY", "EXTCODEHASH"} {
 				if o.Ops[op] > 0 {
 					ctx.Cov.Add("executed="+op, o.Ops[op])
 				}
@@ -395,7 +442,7 @@ func runBatch(ctx *hx.Ctx, r *hx.Rand, cases []*Case, sweepMax int) {
 				if oo.Panic != "" {
 					return false
 				}
-				ans := askSharded(ctx.Oracle, []string{oracleRunLine(p, y.Gas)})
+				ans := askSharded(ctx.Oracle, []string{oracleRunLine(p, y.Gas, oo.Hashes)})
 				mm := parseAns(ans[0])
 				if mm.Class == "unsupported" || mm.Class == "fuel" || mm.Class == "ERR" {
 					return false
